@@ -679,6 +679,10 @@ func (en *extensionNode) getNextHashAndKey(key []byte) (bool, []byte, []byte) {
 		return false, nil, nil
 	}
 
+	if len(key) < len(en.Key) || !bytes.Equal(en.Key, key[:len(en.Key)]) {
+		return false, nil, nil
+	}
+
 	nextKey := key[len(en.Key):]
 	wantHash := en.EncodedChild
 
